@@ -51,7 +51,8 @@ def run(ctx: core.Run):
     n_walks, max_len = (150, 12) if ctx.quick else (1000, 60)
     for k in range(n_walks):
         recipe = recipes[k % len(recipes)]
-        ops = T.random_walk(recipe, rng, rng.randrange(3, max_len + 1), p_obs=0.1)
+        # every third walk is biased towards what removed layers still carry (treeops.stale_return_op)
+        ops = T.random_walk(recipe, rng, rng.randrange(3, max_len + 1), p_obs=0.1, p_stale=0.25 if k % 3 == 2 else 0.0)
         traces.append(T.run_history(recipe, ops))
     # correspondence with the model after every operation
     T.compare_with_model(ctx, traces, what="C10")
@@ -65,7 +66,9 @@ def run(ctx: core.Run):
                 "state-dependent argument set of treeops.candidate_ops on 3 small trees (ill-formed prefixes are reported "
                 "and not extended); random part: %d walks of <= %d operations over %d initial trees (API-built "
                 "mode x depth matrix, two-document worlds, fixtures), 12%% of the inserted arguments unguarded "
-                "(already listed, non-layers, documents)." % (depth, n_walks, max_len, len(recipes)))
+                "(already listed, non-layers, documents); every third walk draws a quarter of its operations from "
+                "treeops.stale_return_op (a removed layer, still holding its old parent pointer, gets its former parent / a "
+                "group above it moved below it, or is offered again to them or to a group now below it by every inserting form)." % (depth, n_walks, max_len, len(recipes)))
     ctx.exhaustive = False
     ctx.notes += NOTES + treetable.NOTES
     if ctx.tier == "thorough":
